@@ -742,7 +742,7 @@ func (w *world) observe(rs reqSpec, r *http.Request, clientHdrs [][]string, rec 
 		execT = tab
 	}
 	stepM := M{"op": "req", "now": time.Now().Unix(), "method": rs.method, "path": path, "rawURI": r.URL.RequestURI(), "line": rs.rawURI, "json": strings.Contains(rs.accept, "application/json"),
-		"preflight": rs.method == "OPTIONS" && rs.origin != "", "base": scheme + "://" + host, "qError": query.Get("error"), "qErrDesc": query.Get("error_description"),
+		"preflight": rs.method == "OPTIONS" && rs.origin != "", "base": scheme + "://" + host, "host": r.Host, "tls": r.TLS != nil, "qError": query.Get("error"), "qErrDesc": query.Get("error_description"),
 		"qState": w.sym(query.Get("state")), "qCode": query.Get("code"), "hdrs": clientHdrs, "exchange": exA, "refresh": rfA, "exec": execT, "note": rs.note, "b": w.b, "i": w.cur, "obs": obs}
 	w.rec(stepM)
 	T.stat("handler.class." + fmt.Sprint(obs["class"]))
